@@ -46,7 +46,14 @@ T3 ==    {Bin(o, Bin(p, N7, N3), N2) : o \in BinOps, p \in BinOps} \cup {Bin(o, 
     \cup {Bin(o, LAnd(N1, N0), N1) : o \in {"|", "==", "+"}} \cup {LAnd(Bin(o, N1, N0), N1) : o \in {"|", "==", "<"}}
     \cup {Un(o, Un(p, N7)) : o \in UnOps, p \in UnOps} \cup {Bin(o, Un(p, N3), N2) : o \in {"-", "+", "*"}, p \in UnOps}
 
-Trees == SetToSeq({e \in T1 \cup T2 \cup T3 : Defined(e)})
+(* a variable modified and then read (or modified again) across a sequence point; an assignment that reads its own target *)
+Eff == {Inc("x++", "x"), Inc("--x", "y"), Inc("++x", "x"), Asg("=", "x", N7), Asg("+=", "y", N2)}
+T4 ==    {LAnd(s, v) : s \in Eff, v \in {X, Y, Inc("x--", "x")}} \cup {LOr(s, v) : s \in Eff, v \in {X, Y, Inc("y++", "y")}}
+    \cup {Tern(s, v, w) : s \in Eff, v \in {X, Y}, w \in {Y, X, N1}}
+    \cup {Asg(o, "x", Bin(p, X, N3)) : o \in AsgOps, p \in {"+", "*", "-"}} \cup {Asg(o, "y", Un("-", Y)) : o \in {"=", "+=", "<<="}}
+    \cup {Bin("+", LAnd(Inc("x++", "x"), X), N1), Tern(X, Inc("x++", "x"), Inc("--x", "x"))}
+
+Trees == SetToSeq({e \in T1 \cup T2 \cup T3 \cup T4 : Defined(e)})
 
 StoreNames == <<"dec", "octhex", "emptybad", "minneg">>
 StoreOf(n) ==
